@@ -35,7 +35,8 @@ SINGLE_T = IDENT_T + UNQ_T + QUOTED_T + VAR_T + BRACKET_T
 
 GENERIC_CMDS = ["message", "include", "list", "add_library", "find_package", "include_guard", "project",
                 "install", "string", "file", "target_link_libraries", "unset", "return", "my_custom_cmd",
-                "MyProj_Helper2", "add_subdirectory", "cpp_set_global", "ct_assert_equal", "_private_cmd"]
+                "MyProj_Helper2", "add_subdirectory", "cpp_set_global", "ct_assert_equal", "_private_cmd",
+                "_add_test", "_option", "_set", "__ct_add_test", "_cpp_attr", "set_property", "function_helper", "optional"]
 BLOCKS = {"if": "endif", "foreach": "endforeach", "while": "endwhile"}
 
 WORDS = ["alpha", "beta", "gamma", "delta", "value", "returns", "the", "of", "a", "list", "target", "path",
@@ -213,7 +214,8 @@ def item(p, depth, ctx):
         alts += rep(s, 2)
     if want("addtest") and p.tests and ctx in ("top", "block"):
         alts.append(st.fixed_dictionaries({"k": st.just("addtest"), "pre": _test_extra(), "name": _test_name(),
-                                           "post": _test_extra(), "doc": p.mdoc()}))
+                                           "post": _test_extra(), "doc": p.mdoc(),
+                                           "noname": st.sampled_from([False] * 5 + [True])}))
     if p.dangling and want("dangling"):
         alts.append(st.fixed_dictionaries({"k": st.just("dangling"), "doc": p.doc}))
     if p.dups:
@@ -295,6 +297,7 @@ class _Counter:
     def __init__(self):
         self.n = 0
         self.last = {}      # kind -> last name given to an item of that kind (for deliberate duplicates)
+        self.classes = []   # names of the classes currently open
 
     def next(self):
         self.n += 1
@@ -308,6 +311,15 @@ def _num(x, c):
         n = str(c.next())
         return x.replace("@", n)
     return x
+
+
+def _cls_ref(c, fresh):
+    """Class argument of cpp_member/cpp_attr: an unrelated name, the innermost or the OUTERMOST enclosing class
+    (the entry belongs to the innermost open class whatever this argument says)."""
+    if not c.classes:
+        return fresh
+    k = c.n % 3
+    return fresh if k == 0 else c.classes[-1] if k == 1 else c.classes[0]
 
 
 def _dup_name(c, kind, fresh, dup):
@@ -383,16 +395,18 @@ def _fin_items(lst, c, in_body):
             it["name"] = _num(it["name"], c)
             it["bases"] = _num(it["bases"], c)
             it["doc"] = _fin_doc(it["doc"], c)
+            c.classes.append(it["name"])
             it["body"] = _fin_items(it["body"], c, True)
+            c.classes.pop()
         elif k == "attr":
-            it["cls"] = _num(it["cls"], c)
+            it["cls"] = _cls_ref(c, _num(it["cls"], c))
             it["name"] = _dup_name(c, "attr", _num(it["name"], c), dup)
             it["extra"] = _num(it["extra"], c)
             it["doc"] = _fin_doc(it["doc"], c)
         elif k in ("member", "test", "section"):
             it["name"] = _dup_name(c, k, _num(it["name"], c), dup)
             if k == "member":
-                it["cls"] = _num(it["cls"], c)
+                it["cls"] = _cls_ref(c, _num(it["cls"], c))
                 it["types"] = _num(it["types"], c)
             else:
                 it["pre"] = _num(it["pre"], c)
@@ -405,6 +419,8 @@ def _fin_items(lst, c, in_body):
             impl["body"] = _fin_items(impl["body"], c, True)
             it["impl"] = impl
         elif k == "addtest":
+            if it.pop("noname", False) and len(it["pre"]) + len(it["post"]) >= 2:
+                it["noname"] = True       # classic positional form add_test(<name> <command> ...): no NAME keyword
             it["name"] = _dup_name(c, "addtest", _num(it["name"], c), dup)
             it["pre"] = [it["name"] if x == "same" else x for x in _num(it["pre"], c)]
             it["post"] = [it["name"] if x == "same" else x for x in _num(it["post"], c)]
